@@ -28,8 +28,8 @@ RULE = ("case = (entry point / argument position, document index, stack spec) or
         ">= 2 distinguishable middlewares or a splice with k != 1; distinct = distinct case")
 ASSUMPTIONS = ["default parse stack = resolve string references, then remove enclosing; default write stack = brace-enclose every value (statement / C05)",
                "a generator returned by transform_block may raise TypeError or be spliced in order (never silently dropped)"]
-MIN = {"parse_stack": (2000, 20000), "append_middleware": (2000, 20000), "prepend_middleware": (2000, 20000), "unparse_stack": (2000, 20000),
-       "mutual_exclusion": (100, 1000), "parse_file": (200, 2000), "write_file": (200, 2000), "open_audit": (400, 4000), "splice": (85, 85)}
+MIN = {"parse_stack": (2000, 20000), "append_middleware": (2000, 20000), "prepend_middleware": (2000, 10000), "unparse_stack": (2000, 10000),
+       "mutual_exclusion": (100, 100), "parse_file": (200, 2000), "write_file": (200, 2000), "open_audit": (400, 4000), "splice": (85, 85)}
 
 DOCS = [
     "@article{k1, title = {A}, author = {Donald E. Knuth and Leslie Lamport}, month = jan}\n",
@@ -103,6 +103,16 @@ def cases(tier, seed, shard, nshards):
                     idx += 1
                     if idx % nshards == shard:
                         yield {"k": "write_file", "doc": d, "target": target, "pos": pos, "stack": st, "fmt": fmt}
+    if tier == "thorough":
+        r = rng_for(seed, shard, "c20-files")
+        for _ in range(6000 // nshards):
+            st = [r.choice(ATOMS[:3] + ATOMS[5:]) for _ in range(r.randint(0, 3))]
+            yield {"k": "parse_file", "doc": r.choice(list(range(len(DOCS))) + [-1]), "enc": r.choice(["utf-8", "latin-1", "gbk", "utf-16"]),
+                   "pos": r.choice(["parse_stack", "append", "none"]) if st else "none", "stack": st}
+            wst = [r.choice(WATOMS) for _ in range(r.randint(0, 3))]
+            yield {"k": "write_file", "doc": r.randrange(len(DOCS)), "target": r.choice(["path", "stringio", "fileobj"]),
+                   "pos": r.choice(["unparse", "prepend"]) if wst else "none", "stack": wst,
+                   "fmt": r.choice([None, ["  ", 12, True, "\n", None], ["", "auto", False, "\n\n\n", None]])}
     shapes = ["none", "empty_list", "empty_tuple", "empty_str", "same", "one_new", "list1", "list2", "list3", "tuple2", "generator2",
               "int", "str", "object", "dict", "list_with_nonblock", "list_with_none"]
     for kind in ("entry", "string", "preamble", "ecomment", "icomment"):
@@ -344,6 +354,9 @@ def check_parse_file(case, ctx):
     ctx.mon("open_audit")
     out = []
     if st_a == "raise" or st_e == "raise":
+        if st_a == st_e and want.split(":")[0] == got.split(":")[0]:
+            ctx.note("ill_typed_stack_both_raise")       # parse_string raises the same way: nothing to compare
+            return []
         return [Violation("raised", f"C20:parse_file:raised:{enc}", dict(expected=srepr(want), got=srepr(got), enc=enc))]
     if fp(got) != fp(want) or log_a != log_e:
         out.append(Violation("result-differs", f"C20:parse_file:differs-from-parse_string:{'stack' if log_a != log_e else 'content'}",
@@ -397,6 +410,9 @@ def check_write_file(case, ctx):
     if st_a == "raise" or st_e == "raise":
         if fobj:
             fobj.close()
+        if st_a == st_e and str(want).split(":")[0] == str(res).split(":")[0]:
+            ctx.note("ill_typed_stack_both_raise")
+            return []
         return [Violation("raised", f"C20:write_file:raised:{target}", dict(expected=srepr(want), got=srepr(res)))]
     if target == "stringio":
         written = sio.getvalue()
